@@ -412,7 +412,7 @@ pub fn run_async_plain(case: &Case, exp: &Exp, plan: &Plan, sched: &Sched) -> Ru
     let mut d = Decider { tracker: GateTracker::new(case.prog, exp, plan), released: HashSet::new(), sched, notes: vec![], decisions: 0, max_held: 0, is_try: case.kind.is_try() };
     let mut polls = 0usize;
     let r = catch_unwind(AssertUnwindSafe(|| -> Outcome {
-        let mut fut = mk();
+        let fut = mk();
         if log::len() != 0 {
             d.notes.push(Note { prop: "C09", msg: format!("{} event(s) logged before the future was first polled: {:?}", log::len(), log::snapshot().iter().map(|e| (e.k, e.id)).collect::<Vec<_>>()) });
         }
@@ -420,6 +420,7 @@ pub fn run_async_plain(case: &Case, exp: &Exp, plan: &Plan, sched: &Sched) -> Ru
             drop(fut);
             return Outcome::Done(Out::Tup(vec![]));
         }
+        let mut fut: LocalFut = Box::pin(log::ROOT.scope(1, fut));
         let wk = Arc::new(CountWaker(AtomicUsize::new(0)));
         let waker = Waker::from(wk.clone());
         let mut cx = Context::from_waker(&waker);
@@ -496,7 +497,7 @@ impl<'a, 'b> Future for TaskDriver<'a, 'b> {
                 drop(f);
                 return Poll::Ready(Outcome::Done(Out::Tup(vec![])));
             }
-            this.fut = Some(f);
+            this.fut = Some(Box::pin(log::ROOT.scope(1, f)));
         }
         let c = this.wk.0.load(Ordering::SeqCst);
         if this.first || c > this.seen {
